@@ -219,13 +219,13 @@ func InclusiveRangeContains(
 	} else {
 		// needle is in between start and end.
 		// start + k * step should be equal to needle i.e. (needle - start) mod step == 0.
-		diff, ok := needleValue.Minus(context, start).(IntegerValue)
-		if !ok {
-			panic(errors.NewUnreachableError())
-		}
+		// The difference might not be representable in the element type
+		// (e.g. 126 - (-128) for Int8), so compute it using arbitrary-precision integers.
+		diff := ConvertInt(context, needleValue).
+			Minus(context, ConvertInt(context, start))
 
-		zeroValue := GetSmallIntegerValue(0, rangeType.ElementType)
-		mod := diff.Mod(context, step)
+		zeroValue := GetSmallIntegerValue(0, PrimitiveStaticTypeInt)
+		mod := diff.Mod(context, ConvertInt(context, step))
 		result = mod.Equal(context, zeroValue)
 	}
 
